@@ -124,6 +124,24 @@ def cmd_mutants(a):
     return 1 if missed else 0
 
 
+def cmd_benign(a):
+    """Property-preserving refactorings: every listed check must exit 0 (no alarm, not inconclusive)."""
+    spec = importlib.util.spec_from_file_location("mutants", os.path.join(VERIF, "mutants", "mutants.py"))
+    m = importlib.util.module_from_spec(spec)
+    spec.loader.exec_module(m)
+    bad = []
+    with cf.ThreadPoolExecutor(max_workers=a.jobs) as ex:
+        for r in ex.map(lambda mm: one_mutant(mm, a.suite), m.BENIGN):
+            exits = {k: v["exit"] for k, v in r.get("checks", {}).items()}
+            ok = r.get("status") in ("caught", "MISSED") and all(e == 0 for e in exits.values()) and (not a.suite or r.get("suite_passes"))
+            print("%-45s %s %s%s" % (r["id"], "silent" if ok else "ALARM/INCONCLUSIVE", exits, ("  suite_passes=%s" % r.get("suite_passes")) if a.suite else ""), flush=True)
+            if not ok:
+                bad.append(r["id"])
+                print("   ", json.dumps(r)[:1200])
+    print("benign refactorings: %d run, not silent: %s" % (len(m.BENIGN), bad))
+    return 1 if bad else 0
+
+
 def cmd_seeded(a):
     root = os.path.join(VERIF, "seeded")
     muts = []
@@ -198,8 +216,11 @@ def main():
     q.add_argument("--tier", default="quick")
     q.add_argument("--props", default=None)
     sub.add_parser("suite")
+    bn = sub.add_parser("benign")
+    bn.add_argument("--suite", action="store_true")
+    bn.add_argument("--jobs", type=int, default=3)
     a = ap.parse_args()
-    sys.exit({"mutants": cmd_mutants, "seeded": cmd_seeded, "silence": cmd_silence, "suite": cmd_suite}[a.cmd](a))
+    sys.exit({"mutants": cmd_mutants, "seeded": cmd_seeded, "silence": cmd_silence, "suite": cmd_suite, "benign": cmd_benign}[a.cmd](a))
 
 
 if __name__ == "__main__":
